@@ -31,13 +31,18 @@ use std::rc::Rc;
 pub enum Fault {
     DepthFirst, LastWinsTie, OptionalKept, CellCompileRuntime, CellRuntimeCompile, ParentMgmtIgnored, LoserSubtreeClaims,
     ImportsIgnored, ManagedScopeIgnored, ParentDepsIgnored, TestScopeKept,
+    /// the management lookup uses the classifier as declared, the stored entries carry the type-implied one
+    LookupDeclaredClassifier,
+    /// the conflict id is built from the file extension instead of the type
+    KeyByExtension,
 }
-pub const FAULTS: [(Fault, &str); 11] = [
+pub const FAULTS: [(Fault, &str); 13] = [
     (Fault::DepthFirst, "depth_first_mediation"), (Fault::LastWinsTie, "last_declared_wins_tie"), (Fault::OptionalKept, "optional_not_cut"),
     (Fault::CellCompileRuntime, "cell_compile_x_runtime_wrong"), (Fault::CellRuntimeCompile, "cell_runtime_x_compile_wrong"),
     (Fault::ParentMgmtIgnored, "parent_management_ignored"), (Fault::LoserSubtreeClaims, "loser_subtree_still_searched"),
     (Fault::ImportsIgnored, "imports_ignored"), (Fault::ManagedScopeIgnored, "managed_scope_ignored"),
     (Fault::ParentDepsIgnored, "parent_dependencies_ignored"), (Fault::TestScopeKept, "test_scope_not_cut"),
+    (Fault::LookupDeclaredClassifier, "management_lookup_with_declared_classifier"), (Fault::KeyByExtension, "conflict_id_by_extension"),
 ];
 
 #[derive(Clone, Copy, Debug, PartialEq, Eq)]
@@ -63,7 +68,7 @@ impl Opts {
 pub struct Origin { pub level: u8, pub imports: u8 }
 
 #[derive(Clone, Debug)]
-pub struct MEntry { pub key: Key, pub version: String, pub scope: Option<Scope>, pub origin: Origin }
+pub struct MEntry { pub key: Key, pub version: String, pub scope: Option<Scope>, pub origin: Origin, /** the entry leaves its classifier to its type */ pub implied: bool }
 
 #[derive(Clone, Debug)]
 pub struct EDep {
@@ -77,6 +82,10 @@ pub struct EDep {
     /// something was omitted in the declaration (version or scope)
     pub omitted_version: bool,
     pub omitted_scope: bool,
+    /// the declaration leaves its classifier to its type
+    pub implied: bool,
+    /// the management entry that completed the declaration (if any) left its classifier to its type
+    pub entry_implied: Option<bool>,
 }
 
 #[derive(Clone, Debug)]
@@ -137,7 +146,7 @@ impl<'u> Resolver<'u> {
         let top = if fault == Some(Fault::ParentMgmtIgnored) { (from + 1).min(lin.len()) } else { lin.len() };
         let mut list = vec![];
         let explicit = |d: &Decl, lvl: usize| -> Result<MEntry, String> {
-            Ok(MEntry { key: d.key(), version: d.version.clone().ok_or("managed dependency without version")?, scope: d.scope, origin: Origin { level: (lvl - from) as u8, imports: 0 } })
+            Ok(MEntry { key: d.key(), version: d.version.clone().ok_or("managed dependency without version")?, scope: d.scope, origin: Origin { level: (lvl - from) as u8, imports: 0 }, implied: d.relies_on_implied() })
         };
         let imported = |me: &mut Self, d: &Decl, lvl: usize, list: &mut Vec<MEntry>| -> Result<(), String> {
             if fault == Some(Fault::ImportsIgnored) { return Ok(()); }
@@ -157,7 +166,8 @@ impl<'u> Resolver<'u> {
 
     fn inject(&self, d: &Decl, level: u8, mgmt: &[MEntry]) -> Result<EDep, String> {
         let key = d.key();
-        let m = mgmt.iter().find(|m| m.key == key);
+        let lookup = if self.opts.fault == Some(Fault::LookupDeclaredClassifier) { Key { classifier: d.classifier.clone(), ..key.clone() } } else { key.clone() };
+        let m = mgmt.iter().find(|m| m.key == lookup);
         let (version, version_from) = match (&d.version, m) {
             (Some(v), _) => (v.clone(), None),
             (None, Some(m)) => (m.version.clone(), Some(m.origin)),
@@ -172,6 +182,7 @@ impl<'u> Resolver<'u> {
             coord: Coord { group: key.group, artifact: key.artifact, version, classifier: key.classifier, type_: key.type_ },
             scope, optional: d.optional.unwrap_or(false), level, version_from, scope_from,
             omitted_version: d.version.is_none(), omitted_scope: d.scope.is_none(),
+            implied: d.relies_on_implied(), entry_implied: if version_from.is_some() || scope_from.is_some() { m.map(|m| m.implied) } else { None },
         })
     }
 
@@ -263,6 +274,7 @@ pub struct Mediated<'t> { pub kept: Vec<&'t TNode>, pub losses: Vec<Loss> }
 
 /// Breadth-first nearest-wins mediation over an explicit forest.
 pub fn mediate<'t>(f: &'t [TNode], fault: Option<Fault>) -> Mediated<'t> {
+    let key_of = |n: &TNode| { let mut k = n.coord.key(); if fault == Some(Fault::KeyByExtension) { k.type_ = extension_of(&k.type_).to_string(); } k };
     match fault {
         Some(Fault::DepthFirst) => {
             // claims in depth-first pre-order, output still level by level
@@ -299,7 +311,7 @@ pub fn mediate<'t>(f: &'t [TNode], fault: Option<Fault>) -> Mediated<'t> {
             // (node, is inside a discarded subtree)
             let mut q: VecDeque<(&TNode, bool)> = f.iter().map(|n| (n, false)).collect();
             while let Some((n, ghost)) = q.pop_front() {
-                let k = n.coord.key();
+                let k = key_of(n);
                 if let Some((wd, wv)) = seen.get(&k) {
                     if !ghost { out.losses.push(Loss { depth: n.depth, winner_depth: *wd, same_version: *wv == n.coord.version, subtree: tree_size(&n.children) }); }
                     if claims_in_losers { q.extend(n.children.iter().map(|c| (c, true))); }
